@@ -22,7 +22,7 @@ def tag2(a, b=0): return ("tag2", a, b)
 def kw(a, *, k=1, j=2): return ("kw", a, k, j)
 def pair(x): return (("L", x), ("R", x))
 def trip(x): return [x, (x, x), {"k": x}]
-def mkd(x): return {"a": x, "b": ("b", x), "n": [x, x]}
+def mkd(x): return {"a": x, "b": ("b", x), "n": [x, x], (0, 1): ("t", x)}
 def ispos(x): return (isinstance(x, bool) and x) or (isinstance(x, int) and not isinstance(x, bool) and x > 0)
 def num(x): return x if isinstance(x, int) and not isinstance(x, bool) else 3
 def const5(): return 5
@@ -75,8 +75,13 @@ def render(v):
     if isinstance(v, list):
         return "[" + ",".join(render(x) for x in v) + "]"
     if isinstance(v, dict):
-        return "{" + ",".join("%s:%s" % (k, render(x)) for k, x in v.items()) + "}"
+        return "{" + ",".join("%s:%s" % (keystr(k), render(x)) for k, x in v.items()) + "}"
     return "?" + repr(v)[:60]
+
+
+def keystr(k):
+    """a dict key as the model names it: a tuple key (0, 1) is the single key "(0,1)" """
+    return "(%s)" % ",".join(map(str, k)) if isinstance(k, (tuple, list)) else k
 
 
 # ---------------------------------------------------------------------------------------------
@@ -105,7 +110,9 @@ class DefGen:
         if k == "trip" and r < 0.6:
             return ["v", i, rng.choice([[["i", 0]], [["i", 1], ["i", 0]], [["i", 2], ["s", "k"]], [["i", -1], ["s", "k"]]])], "any"
         if k == "dict" and r < 0.6:
-            return ["v", i, rng.choice([[["s", "a"]], [["s", "b"], ["i", 1]], [["s", "n"], ["i", 0]]])], "any"
+            # a TUPLE key  v[(0, 1)]  /  v[0, 1]  is ONE key, not two successive ones
+            return ["v", i, rng.choice([[["s", "a"]], [["s", "b"], ["i", 1]], [["s", "n"], ["i", 0]],
+                                        [["t", (0, 1)]], [["t", (0, 1)], ["i", 1]]])], "any"
         if k in ("tup3", "tup4") and r < 0.4:
             return ["v", i, [["i", 1]]], "any"
         return ["v", i, []], k
@@ -329,7 +336,7 @@ def same_callee_twice(mod):
 def parg(a):
     if a[0] == "c":
         return "c " + enc(a[1])
-    return "v %d %d %s" % (a[1], len(a[2]), " ".join("%s %s" % (t, k) for t, k in a[2]))
+    return "v %d %d %s" % (a[1], len(a[2]), " ".join(("s %s" % keystr(k)) if t == "t" else "%s %s" % (t, k) for t, k in a[2]))
 
 
 def proto(mid, mod):
@@ -377,7 +384,7 @@ def var_names(d, defs):
 def sarg(a, names):
     if a[0] == "c":
         return repr(a[1])
-    return names[a[1]] + "".join("[%r]" % k for _t, k in a[2])
+    return names[a[1]] + "".join("[%r]" % (tuple(k) if _t == "t" else k,) for _t, k in a[2])
 
 
 def def_source(d, defs, oracle):
@@ -738,7 +745,7 @@ def directed_passing_modules():
 # slice B: the built table, as a multiset of canonical terms (no id prediction needed)
 # ---------------------------------------------------------------------------------------------
 def _path(keys):
-    return "".join("/i%d" % k if isinstance(k, int) and not isinstance(k, bool) else "/s%s" % k for k in keys)
+    return "".join("/i%d" % k if isinstance(k, int) and not isinstance(k, bool) else "/s%s" % keystr(k) for k in keys)
 
 
 def real_table_terms(top, args):
